@@ -462,7 +462,12 @@ def bracket_worker(args):
     res.sites.update(['call-brackets', 'value-braces'])
     for plain, bracketed in (('define r with p q print p r 1 2', 'define r with p q print p [r 1 2]'),
                              ('define r on all r', 'define r on all [r]'),
-                             ('define r with p return p assign x [r 3] r x', 'define r with p return p assign x [r 3] [r x]')):
+                             ('define r with p return p assign x [r 3] r x', 'define r with p return p assign x [r 3] [r x]'),
+                             # the call is the single command of a routine, of a conditional, of a loop
+                             ('define f with p print p define r f 1 r', 'define f with p print p define r [f 1] r'),
+                             ('define f with p print p if {1 > 0} f 1 else f 2', 'define f with p print p if {1 > 0} [f 1] else [f 2]'),
+                             ('define f with p print p repeat 2 f 1 repeat with i from 1 to 2 f i', 'define f with p print p repeat 2 [f 1] repeat with i from 1 to 2 [f i]'),
+                             ('define f on all define g with a begin f end g 1', 'define f on all define g with a begin [f] end [g 1]')):
         a, _ = listing(plain)
         b, e = listing(bracketed)
         res.nontrivial += 1
